@@ -248,7 +248,10 @@ class IdentityManager:
         """
         # Load the tree structure
         pseudonym = self.get_pseudonym(public_key)
+        known_tokens = set(pseudonym.tree.elements)
         correct = pseudonym.tree.unserialize_public(serialized_tokens)
+        # Store the disclosed tokens, so the metadata stored below still has its tokens after a restart.
+        pseudonym.store_new_tokens(known_tokens)
 
         # Load the metadata
         metadata_offset = 0
